@@ -401,6 +401,9 @@ def to_j(v):
         return {"t": [to_j(x) for x in v]}
     if isinstance(v, dict):
         return {"m": [[to_j(k), to_j(x)] for k, x in v.items()]}
+    import numpy as np
+    if isinstance(v, np.ndarray):        # goes through msgpack_numpy (patched in by molli.config); oracle only
+        return {"nd": v.dtype.str, "shape": list(v.shape), "hex": v.tobytes().hex()}
     raise TypeError(type(v).__name__)
 
 
@@ -415,6 +418,9 @@ def from_j(j):
         return bytes.fromhex(j["b"])
     if "t" in j:
         return tuple(from_j(x) for x in j["t"])
+    if "nd" in j:
+        import numpy as np
+        return np.frombuffer(bytes.fromhex(j["hex"]), dtype=j["nd"]).reshape(j["shape"]).copy()
     return {(_hashable(from_j(k))): from_j(x) for k, x in j["m"]}
 
 
@@ -501,8 +507,13 @@ def _feq(a, b):
 
 def vdiff(a, b, path, out):
     """deep comparison of two attribute values; appends (path, kind), kind in list-as-tuple / double-as-single / other"""
+    import numpy as np
     a, b = _pv(a), _pv(b)
-    if isinstance(a, bool) or isinstance(b, bool):
+    if isinstance(a, np.ndarray) or isinstance(b, np.ndarray):
+        if not (isinstance(a, np.ndarray) and isinstance(b, np.ndarray) and a.dtype == b.dtype and a.shape == b.shape
+                and a.tobytes() == b.tobytes()):
+            out.append((path, "other"))
+    elif isinstance(a, bool) or isinstance(b, bool):
         if not (isinstance(a, bool) and isinstance(b, bool) and a == b):
             out.append((path, "other"))
     elif isinstance(a, float) and isinstance(b, float):
@@ -634,6 +645,10 @@ def store_and_read(path, kind, ver, objs, batch=40):
 def gen_value(rng, depth, risky):
     """a msgpack-able attribute value.  risky=False keeps to values msgpack returns unchanged (tuples, singles)."""
     r = rng.random()
+    if r < 0.015:
+        import numpy as np
+        return np.array([[rng.uniform(-5, 5) for _ in range(3)] for _ in range(rng.randrange(0, 3))],
+                        dtype=rng.choice(["<f8", "<f4", "<i4"])).reshape(-1, 3)
     if depth <= 0 or r < 0.55:
         c = rng.randrange(9)
         if c == 0:
@@ -870,13 +885,18 @@ def run(ctx, rep):
     E = enum_tables()
     found = False
     items = []
-    for d in gen_cases(ctx, E, 3000 if ctx.thorough else 330):
+    for d in gen_cases(ctx, E, 6000 if ctx.thorough else 1100):
         try:
             items.append({"kind": d["kind"], "ver": d["ver"], "obj": build(d), "src": "gen", "desc": d})
         except Exception as e:   # the public constructors refused a generated description: not a C01 matter, but say so
             rep.count("build-refused:" + type(e).__name__)
     bundled, problems = bundled_objects(400 if ctx.thorough else 12)
     for fn, ver, k, e in problems:
+        if ver != 1:
+            # a file written by an OLDER molli in the current format: compatibility with it is not part of this property
+            # (a format change such as storing doubles is allowed); reported in the evidence only
+            rep.count("bundled-v2-entry-unreadable:" + type(e).__name__)
+            continue
         found = True
         rep.violate(f"C01:v{ver}:mol:bundled-unreadable:{type(e).__name__}",
                     f"entry {k!r} of the bundled library {fn} cannot be read ({type(e).__name__}: {e})"[:400],
@@ -923,9 +943,8 @@ def run(ctx, rep):
     elif bad:
         # model and implementation disagree on these stored objects: the oracle has already judged each of them
         rep.extra["mismatching_cases"] = [{"src": kept[i]["src"], "codec": CODEC_OF[(kept[i]["kind"], kept[i]["ver"])]} for i in bad[:20]]
-        explained = all(any(s not in known for s, _ in judge_item(kept[i])) for i in bad)
         vlib.broken_obligation(rep, "corr_c01", f"{len(bad)} stored object(s) read back differently from the model, e.g. "
-                               + json.dumps(rep.extra["mismatching_cases"][:3]), found and explained)
+                               + json.dumps(rep.extra["mismatching_cases"][:3]), found)
     if not ok:
         # a premise of the round-trip theorem no longer holds on the regenerated wiring: the oracle over the generated
         # objects (which exercise every slot with distinguishable values) is the search for a concrete input
